@@ -24,7 +24,8 @@ LEVEL_TEXT = (
     "two allocations sized by header numbers must follow a rejecting comparison of the declared wire count with the number of lines (B5); a table of assigned wires is consulted for every gate and for the outputs (B6). (B4) On every path of the gate loop that "
     "pushes a gate, the gate's output wire is written into the table from which later gates translate their operands, and the wire "
     "counter is incremented. Not decided: round-trip "
-    "equivalence and well-formedness of the exported text (computed wire numbers for all circuits: value level).")
+    "equivalence and well-formedness of the exported text (computed wire numbers for all circuits: value level)."
+    " (B6) a table of assigned wires is consulted for every gate (read wires assigned, written wire not yet) and for the declared outputs.")
 LEVEL_NOTE = ("Trusted: rustc MIR in the debug profile (overflow checks are Assert terminators); a guard is accepted when it compares "
               "the same parsed values - that the compared bound is the right one is read from the code, not proved.")
 EXPLANATION = ("Functions analysed: Circuit::bristol_to_garble, convert::parse_line, convert::checked_sum and their closures. Taint "
